@@ -3,8 +3,8 @@ import vlib
 CFG = dict(
     imports=["From Verif.Common Require Import Labels Packet.", "From Verif.C29 Require Import Model Spec."],
     checker="check_case",
-    n=dict(quick=200, thorough=3000),
-    shard=50,
+    n=dict(quick=150, thorough=3000),
+    shard=40,
     rule="per case: 3 namespaces with generated labels, 3-5 pods (labels, service account, named container ports, IPv4/IPv6; "
          "some carry pcns./pcsa. labels), service accounts with labels, 1-2 NetworkPolicies (podSelector/namespaceSelector with "
          "matchLabels and matchExpressions In/NotIn/Exists/DoesNotExist, empty and nil selectors, 0-3 peers incl. ipBlock with except "
